@@ -1,9 +1,9 @@
 (* C18 -- tuples and anonymous components are desugared completely and
    faithfully.  Property theorems only: each is closed by [exact] of a lemma of
-   Proofs.Desugar{Proofs,Metas,Total,Refine,Alpha}, followed by Print Assumptions.  All
+   Proofs.Desugar{Proofs,Metas,Total,Refine,Alpha,AlphaInj}, followed by Print Assumptions.  All
    statements of DESIGN §4 C18 are theorems here; nothing is left open. *)
 From Coq Require Import ZArith NArith List Bool String.
-Require Import Model.Ast Model.Desugar Spec.ExpandSpec Spec.RenameSpec Proofs.DesugarProofs Proofs.DesugarMetas Proofs.DesugarTotal Proofs.DesugarRefine Proofs.DesugarAlpha.
+Require Import Model.Ast Model.Desugar Spec.ExpandSpec Spec.RenameSpec Proofs.DesugarProofs Proofs.DesugarMetas Proofs.DesugarTotal Proofs.DesugarRefine Proofs.DesugarAlpha Proofs.DesugarAlphaInj.
 Import ListNotations.
 Local Open Scope string_scope.
 
@@ -162,39 +162,65 @@ Theorem C18_desugar_accepts_iff : forall (lib : file_library) ts body,
 Proof. exact desugar_accepts_iff. Qed.
 Print Assumptions C18_desugar_accepts_iff.
 
-(* INDEPENDENCE OF THE NAMING SCHEME.  [expand_spec] takes the functions that name
+(* THE NAMING FUNCTIONS ARE PARAMETERS.  [expand_spec] takes the functions that name
    the introduced components and loop counters as parameters; the faithfulness
-   theorems above instantiate them with the implementation's own scheme.  That
-   choice does not matter: for every renaming [f] of variable names that moves none
-   of the names the body itself uses ([fixes_names], Spec.RenameSpec), naming by
-   "f after (comp_name, counter_name)" gives the [f]-renamed expansion ([ren_s f]
-   renames declared, assigned and referenced variables; for injective [f] it is
-   alpha-renaming), and is defined on exactly the same bodies. *)
-Theorem C18_expand_spec_naming_independent :
+   theorems above instantiate them with the implementation's own scheme.  The
+   specification is PARAMETRIC in them: for every [f] on variable names that moves
+   none of the names the body itself uses ([fixes_names], Spec.RenameSpec), naming
+   by "f after (comp_name, counter_name)" gives the [f]-renamed expansion, and is
+   defined on exactly the same bodies.  This statement alone is NOT alpha-equivalence:
+   an [f] that sends a generated name onto a name of the body (`A_2_22` to `a`), or
+   two generated names onto one, satisfies the hypothesis as well, and then [ren_s f]
+   merges variables (C18_example_merging_renaming below).  The alpha reading needs
+   the injectivity hypothesis of the next two theorems. *)
+Theorem C18_expand_spec_commutes_with_renaming :
   forall (f : string -> string) sig_of comp_name counter_name body,
     fixes_names f body ->
     expand_spec sig_of (fun id m => option_map f (comp_name id m)) (fun m => option_map f (counter_name m)) body =
     option_map (ren_s f) (expand_spec sig_of comp_name counter_name body).
 Proof. exact expand_spec_naming_independent. Qed.
-Print Assumptions C18_expand_spec_naming_independent.
+Print Assumptions C18_expand_spec_commutes_with_renaming.
 
-(* hence "the desugarer's output is the hand expansion" holds up to the choice of
-   the new names, not only under the implementation's naming function: renamed by
-   any such [f], the output of the two passes is the specified expansion under the
-   scheme that names components `f (<id>_<line>_<start>)` and counters
-   `f (anon_var_<line>_<start>)`.  ([f] may send different generated names to
-   arbitrary hand-chosen ones, e.g. `A_2_22` to `cx`; nothing is claimed when a
-   generated name coincides with a name the body uses, see design.d/C18.md.) *)
-Theorem C18_desugar_is_expand_up_to_names :
-  forall (f : string -> string) (lib : file_library) ts m l,
+(* ALPHA-RENAMING.  [scope] = names visible in the body that need not occur in it
+   (the parameters of the definition).  If [f] moves none of the names of the body,
+   and identifies no two names among [scope] and the names of the expansion [b]
+   ([inj_on]: in particular no generated name is sent onto a name of the body or of
+   the scope, and no two generated names onto one), then the expansion under the
+   scheme "f after (comp_name, counter_name)" is [ren_s f b] AND [ren_s f] is undone
+   on it by a renaming [g] inverse to [f] on every name in sight: the two expansions
+   are renamings of each other by maps that merge nothing. *)
+Theorem C18_expand_spec_alpha_renaming :
+  forall (f : string -> string) sig_of comp_name counter_name scope body b,
+    fixes_names f body ->
+    expand_spec sig_of comp_name counter_name body = Some b ->
+    inj_on f (scope ++ stmt_names b) ->
+    expand_spec sig_of (fun id m => option_map f (comp_name id m)) (fun m => option_map f (counter_name m)) body
+      = Some (ren_s f b) /\
+    exists g, (forall x, In x (scope ++ stmt_names b) -> g (f x) = x) /\ ren_s g (ren_s f b) = b.
+Proof. exact expand_spec_alpha. Qed.
+Print Assumptions C18_expand_spec_alpha_renaming.
+
+(* hence "the desugarer's output is the hand expansion" holds up to alpha-renaming
+   of the new names, not only under the implementation's naming function: the
+   output [b] of the two passes and the specified expansion under the scheme that
+   names components `f (<id>_<line>_<start>)` and counters
+   `f (anon_var_<line>_<start>)` are renamings of each other ([f] one way, [g] back),
+   for every [f] that fixes the body's names and is injective on the scope and the
+   names of [b].  (Nothing is claimed when a generated name coincides with a name
+   the body uses - then [fixes_names] forces [f] to fix it too: known finding
+   C18-generated-name-capture, witness below.) *)
+Theorem C18_desugar_is_expand_up_to_alpha :
+  forall (f : string -> string) (lib : file_library) ts m l scope b,
     Forall wf_node (stmt_exprs (Block m l)) ->
     Forall short_node (sub_stmts (Block m l)) ->
     fixes_names f (Block m l) ->
-    option_map (ren_s f) (to_opt (desugar_template (env_of ts) lib (Block m l))) =
+    desugar_template (env_of ts) lib (Block m l) = DOk b ->
+    inj_on f (scope ++ stmt_names b) ->
     expand_spec (sig_table ts) (fun id mm => option_map f (name_opt lib id mm))
-                (fun mm => option_map f (name_opt lib "anon_var" mm)) (Block m l).
-Proof. exact desugar_is_expand_up_to_names. Qed.
-Print Assumptions C18_desugar_is_expand_up_to_names.
+                (fun mm => option_map f (name_opt lib "anon_var" mm)) (Block m l) = Some (ren_s f b) /\
+    exists g, (forall x, In x (scope ++ stmt_names b) -> g (f x) = x) /\ ren_s g (ren_s f b) = b.
+Proof. exact desugar_is_expand_up_to_alpha. Qed.
+Print Assumptions C18_desugar_is_expand_up_to_alpha.
 
 (* ---- hypotheses are satisfiable / the definitions compute ------------------ *)
 
@@ -266,7 +292,7 @@ Example C18_D7_function_multisub :
             /\ r_msg r = MFunMultiSub.
 Proof. eexists. vm_compute. split; reflexivity. Qed.
 
-(* the naming-independence theorems on the worked example: a programmer who calls
+(* the renaming theorems on the worked example: a programmer who calls
    the component `cx` writes exactly the renamed output of the desugarer *)
 Definition ex_f (x : string) : string := if String.eqb x "A_2_22" then "cx" else x.
 
@@ -274,6 +300,38 @@ Example C18_example_fixes_names : fixes_names ex_f ex_body.
 Proof.
   unfold fixes_names. vm_compute. intros x H.
   repeat (destruct H as [<-|H]; [reflexivity|]). destruct H.
+Qed.
+
+(* ... and [ex_f] meets the injectivity hypothesis of the alpha theorems on the
+   desugarer's output (scope: a parameter `n`) *)
+Example C18_example_injective :
+  match to_opt (desugar_template ex_env [[0%N; 8%N]] ex_body) with
+  | Some b => inj_on ex_f (["n"] ++ stmt_names b)
+  | None => False
+  end.
+Proof.
+  vm_compute. intros x y Hx Hy.
+  repeat (destruct Hx as [<-|Hx]; [repeat (destruct Hy as [<-|Hy]; [vm_compute; try reflexivity; discriminate|]); destruct Hy|]).
+  destruct Hx.
+Qed.
+
+(* the renaming that [fixes_names] alone lets through and [inj_on] excludes: the
+   generated name sent onto the body's own signal `a` merges the component with it *)
+Definition ex_f_merge (x : string) : string := if String.eqb x "A_2_22" then "a" else x.
+
+Example C18_example_merging_renaming :
+  fixes_names ex_f_merge ex_body /\
+  match to_opt (desugar_template ex_env [[0%N; 8%N]] ex_body) with
+  | Some b => ~ inj_on ex_f_merge (stmt_names b)
+  | None => False
+  end.
+Proof.
+  split.
+  - unfold fixes_names. vm_compute. intros x H.
+    repeat (destruct H as [<-|H]; [reflexivity|]). destruct H.
+  - vm_compute. intros Hinj.
+    assert (E : "A_2_22" = "a"); [|discriminate E].
+    apply Hinj; [| |reflexivity]; auto 20.
 Qed.
 
 Example C18_example_hand_names :
@@ -292,7 +350,7 @@ Proof. vm_compute. discriminate. Qed.
    the body also declares a variable `A_2_22`.  The desugarer accepts it and declares
    `A_2_22` a second time (as the component), whereas an expansion written by hand
    with a fresh name declares every name once.  No renaming with [fixes_names] can
-   separate the two, so C18_desugar_is_expand_up_to_names says nothing beyond
+   separate the two, so C18_desugar_is_expand_up_to_alpha says nothing beyond
    C18_desugar_is_expand for such bodies. *)
 Definition ex_body_capture : statement :=
   match ex_body with
